@@ -885,6 +885,22 @@ class Explorer:
                             ci.init = default_of(new_shape)
                         except VMError:
                             ci.init = clone_value(coerce(value, new_shape), {})  # template only (e.g. an input iterator)
+        if not getattr(ci, "_declared_for", None) == ci.shape and not (isinstance(ci.shape, tuple) and ci.shape[0] in ("c", "o")):
+            # the state variables of the cell start with the values the real object had after construction
+            ci._declared_for = ci.shape
+            try:
+                out0 = []
+                flatten(ci.init, ci.shape, ci.name, out0)
+                for n0, s0, e0 in out0:
+                    e0 = z3.simplify(e0)
+                    if z3.is_bv_value(e0):
+                        w.statevars[n0] = (s0, e0.as_signed_long())
+                    elif z3.is_true(e0) or z3.is_false(e0):
+                        w.statevars[n0] = (s0, z3.is_true(e0))
+                    elif n0 not in w.statevars:
+                        w.statevars[n0] = (s0, 0 if s0 == "i" else False)
+            except VMError:
+                pass
         if not ctor and self.cell_shared(ci, th.name):
             self.visible(ts, pst, "write %s" % ci.name)
         if isinstance(ci.shape, tuple) and ci.shape[0] in ("c", "o"):
@@ -1006,8 +1022,9 @@ class Explorer:
                 block = rest[0]
             if "block" in kwargs:
                 block = kwargs["block"]
-            if "timeout" in kwargs or len(rest) > 1:
-                raise VMError("queue timeouts are not modelled")
+            if ("timeout" in kwargs and kwargs["timeout"] is not None) or (len(rest) > 1 and rest[1] is not None):
+                # time is abstracted: a timed call may expire whenever it would have to wait => behaves like block=False
+                block = False
         if name == "qsize":
             ts.frames[-1].stack.append(ln)
             return None
@@ -1537,6 +1554,13 @@ class Explorer:
             pst.set_flag("typeerror-None-used-as-number", v.is_none)
             return v.payload
         return v
+
+    def op_UNARY_NOT(self, ts, pst, th, f, ins, st):
+        st.append(_not(self.truth(st.pop())))
+
+    def op_UNARY_NEGATIVE(self, ts, pst, th, f, ins, st):
+        v = st.pop()
+        st.append(-v if not is_z3(v) else I(0) - as_bv(v))
 
     def op_COMPARE_OP(self, ts, pst, th, f, ins, st):
         b = st.pop()
